@@ -12,10 +12,13 @@ import os
 import sys
 import threading
 import time
+import weakref
 
 from .lib import ATHLIB_DIR
 
 WATCHDOG = 0.05
+_real_Lock, _real_RLock = threading.Lock, threading.RLock
+_ALL_LOCKS = weakref.WeakSet()
 _current = threading.local()          # .run / .tid of the scheduled thread we are in
 
 
@@ -25,15 +28,23 @@ class CoopLock(object):
 
     def __init__(self, inner):
         self.inner = inner
+        self.kind = _real_RLock if isinstance(inner, type(_real_RLock())) else _real_Lock
+        _ALL_LOCKS.add(self)
 
     def acquire(self, blocking=True, timeout=-1):
         run = getattr(_current, 'run', None)
         if run is None or run.free or not blocking:
             return self.inner.acquire(blocking, timeout) if blocking else self.inner.acquire(False)
+        spins = 0
         while not self.inner.acquire(False):
             if run.free:
-                return self.inner.acquire()
-            run.blocked_yield(_current.tid)
+                return self.inner.acquire(timeout=2.0) or _deadlock()
+            if run.blocked_yield(_current.tid):
+                spins = 0
+            else:
+                spins += 1
+                if spins > 40:           # nobody else can run: the holder has finished without releasing
+                    _deadlock()
         return True
 
     def release(self):
@@ -47,10 +58,29 @@ class CoopLock(object):
         self.release()
 
 
+def reset_locks():
+    """Before each run: a library lock still held (by a thread of an earlier run that finished, or hangs, without
+    releasing it) is replaced by a fresh one, so that one bad schedule cannot poison every later run of the process.
+    Returns how many were replaced."""
+    n = 0
+    for l in list(_ALL_LOCKS):
+        if l.inner.acquire(False):
+            l.inner.release()
+        else:
+            l.inner = l.kind()
+            n += 1
+    return n
+
+
+class Deadlock(Exception):
+    """A scheduled thread waits for a lock that no runnable thread can release."""
+
+
+def _deadlock():
+    raise Deadlock('lock is held by a thread that has finished (or is itself blocked): the call would never return')
+
+
 _LOCK_TYPES = (type(threading.Lock()), type(threading.RLock()))
-
-
-_real_Lock, _real_RLock = threading.Lock, threading.RLock
 
 
 class _ThreadingProxy(object):
@@ -154,8 +184,9 @@ class Run(object):
             if t != tid and not self.done[t]:
                 self.sems[t].release()
                 self._wait(tid)
-                return
+                return True
         time.sleep(0.0002)
+        return False
 
     def _wait(self, tid):
         while not self.sems[tid].acquire(timeout=WATCHDOG * 4):
@@ -195,17 +226,21 @@ class Run(object):
         self.sems[self.first].release()
         last = -1
         waited = 0.0
+        freed_at = None
+        self.hung = False
         while not self.finished.wait(WATCHDOG):
             waited += WATCHDOG
             if self.progress == last and not self.free:
                 self.free = True
+                freed_at = waited
                 for s in self.sems:
                     s.release()
             last = self.progress
-            if waited > 30:
+            if waited > 40 or (freed_at is not None and waited - freed_at > 15):
+                self.hung = True          # some thread is blocked for good (a lock the proxies do not cover)
                 break
         for t in ths:
-            t.join(timeout=5)
+            t.join(timeout=0.2 if self.hung else 5)
         return self.results
 
 
